@@ -31,3 +31,9 @@ def run_cpp(src, extra=(), timeout=120, tsan=False):
 @replay.register(r'tripwire', r'TripWireTrigger__(dtor|ctor_move|op_assign_move)')
 def tripwire_moved_from(info, fn, o):
     return run_cpp('tripwire_moved_from.cpp')
+
+
+@replay.register(r'rcu', r'.*rcu_guard__unlock|.*_vf_payload__dtor')
+def rcu_null_zombie(info, fn, o):
+    r = run_cpp('rcu_null_zombie.cpp')
+    return r
